@@ -55,6 +55,7 @@ THEOREMS = [
     "IrVerif.Scope.C17_idempotent_ir9",
     "IrVerif.Scope.C17_idempotent_ext_model",
     "IrVerif.Scope.C17_ext_sharding_resolved",
+    "IrVerif.Scope.C17_ext_sharding_resolved_model",
 ]
 ASSUMPTIONS = [
     "byte-level parsing is protobuf's; Python RecursionError counts as 'raises'",
@@ -66,22 +67,22 @@ ASSUMPTIONS = [
     "fix-point is a theorem (C17_meta_idempotent, C17_idempotent_decorated) and it is compared with the real "
     "objects on every field case; function attributes of kinds other than INT / FLOAT / STRING / INTS and "
     "reference attributes are outside its abstraction (counted)",
-    "extended model (Model/ScopeExt.lean, scope.edeser; main graph and nested graphs): value-level metadata_props "
-    "MERGED over every entry that reaches a value, quantization annotations, the value each sharding spec "
-    "resolves to. It erases to the core model (C17_ext_erasure), so consistency is a theorem (C17_consistent_ext); "
-    "its serialize-deserialize fix-point is a theorem only in its PAYLOAD half (C17_ext_payload_fixpoint: merged "
-    "metadata, annotations and device configurations written by the serializer are read back and written again "
-    "unchanged); the FLOW half (which entry reaches which reloaded value) is not: the model's first and second "
-    "re-serialization are compared with the real ones on every field case (counter ext_model_fixpoint). Function "
-    "bodies are part of it "
-    "for IR version >= 10 (scope.medeser; C17_ext_erasure_model, C17_ext_sharding_named_model); below IR version "
-    "10 only the main graph is",
+    "extended model (Model/ScopeExt.lean, scope.edeser / scope.medeser; main graph, nested graphs and, for IR version "
+    ">= 10, function bodies): value-level metadata_props MERGED over every entry that reaches a value, quantization "
+    "annotations, the value each sharding spec resolves to. It erases to the core model (C17_ext_erasure), so "
+    "consistency is a theorem (C17_consistent_ext); its serialize-deserialize fix-point is a theorem in full since "
+    "round 5: C17_idempotent_ext (graphs) and C17_idempotent_ext_model (models with functions), no hypothesis "
+    "beyond 'deserialization succeeded' (payload half: C17_ext_payload_fixpoint; flow half: the lock-step induction "
+    "rtE_graph / rtE_func over the certificate ReloadableE / ReloadableME, which every deserialized model satisfies); "
+    "the certificate is also EVALUATED by its decision procedure (Model/ScopeCert.lean, reloadableEB) on every "
+    "deserialized graph case (counter ext_certificate_holds, must be 100%); the model's first and second "
+    "re-serialization are still compared with the real ones on every field case (counter ext_model_fixpoint). Below IR "
+    "version 10 only the main graph is part of the extended model",
     "IR version < 10 function value-info format (Model/ScopeFunc9.lean, scope.mdeser9): modelled (post-pass, "
     "experimental names, reserved names of D320's repair); C17_ir9_not_idempotent refutes the fix-point for the code "
-    "before the repair; for the repaired code the experimental entries are proved inert for the main graph "
-    "(C17_ir9_entries_inert; hypothesis: initializers keyed by the name of their value, counter "
-    "ir9_init_keys_named), the rest of the fix-point is differential (model Q and Q2 against the real "
-    "ones) and oracle-checked, not proved; value-level metadata on such models is compared leniently",
+    "before the repair; for the repaired code the fix-point is a theorem for every proto (C17_idempotent_ir9; its "
+    "main-graph half is C17_ir9_entries_inert); model Q and Q2 are still compared with the real ones on every "
+    "IR < 10 case with functions; value-level metadata on such models is compared leniently",
     "C17_idempotent / C17_idempotent_model are proved for every proto of the core model (dangling / duplicate / "
     "shadowed names, placeholders, unproduced outputs, duplicate function identifiers included); the model's "
     "serialize . deserialize is also run twice on every generated proto (counter model_not_fixpoint must stay 0) "
